@@ -259,12 +259,16 @@ def build(tier, seed):
         defs.append(d)
     # ---- 4b. explicit discriminants (fieldless enums, and enums with payloads under a primitive repr):
     #          tags stay declaration indices on all three sides
-    for (nv, payload) in ((3, False), (5, False), (4, True)):
+    for (nv, payload, mixed) in ((3, False, False), (5, False, False), (4, True, False), (4, False, True), (5, False, True)):
         d = new()
         d.kind, d.copy = "enum", "deep"
         discs = [7, 0, 3, 250, 1][:nv]
         for vi in range(nv):
-            if payload and vi % 2 == 1:
+            if mixed:
+                # explicit discriminants equal to the position of a later variant, implicit ones in between
+                name = ("V%d = %d" % (vi, vi + 1)) if vi % 2 == 0 and vi + 1 < nv else "V%d" % vi
+                d.variants.append((name, "unit", []))
+            elif payload and vi % 2 == 1:
                 d.variants.append(("V%d = %d" % (vi, discs[vi]), "tuple:disc", [(None, CLOSED_DEEP_FIELDS[vi % len(CLOSED_DEEP_FIELDS)])]))
             else:
                 d.variants.append(("V%d = %d" % (vi, discs[vi]), "unit", []))
